@@ -52,6 +52,8 @@ pub enum Act {
     WriteStorm,
     /// async only: the read half stays Pending for STORM polls in a row
     ReadStorm,
+    /// STORM transient read errors of this kind in a row (each is a result of its own)
+    FailStorm(u8),
     /// async only: 30 s pass on the (paused) clock while the connection is suspended; never more
     /// than 60 s in a row without a transport event, so that the documented 90 s read timeout
     /// cannot fire and the expected effect is: none
@@ -61,7 +63,7 @@ pub enum Act {
 impl Act {
     pub fn side(&self) -> Option<Side> {
         match self {
-            Act::Deliver(_) | Act::ReadFail(_) | Act::Eof | Act::ReadPending | Act::ReadStorm => Some(Side::Read),
+            Act::Deliver(_) | Act::ReadFail(_) | Act::Eof | Act::ReadPending | Act::ReadStorm | Act::FailStorm(_) => Some(Side::Read),
             Act::Accept(_) | Act::WritePending | Act::WriteStorm => Some(Side::Write),
             Act::Cancel | Act::Tick => None,
         }
@@ -100,6 +102,8 @@ pub struct Inner {
     pub delivered: Vec<usize>,
     /// not-ready answers still owed by the storm in progress (read side, write side)
     pub storm_left: (u32, u32),
+    /// transient read errors still owed by the error storm in progress, and their kind
+    pub fail_storm_left: (u32, u8),
 }
 
 impl Inner {
@@ -109,6 +113,10 @@ impl Inner {
         if self.storm_left.0 > 0 {
             self.storm_left.0 -= 1;
             return Some(Err(io::Error::new(io::ErrorKind::Other, "verif: pending")));
+        }
+        if self.fail_storm_left.0 > 0 {
+            self.fail_storm_left.0 -= 1;
+            return Some(Err(io::Error::new(fail_kind(self.fail_storm_left.1), "verif: injected transient error")));
         }
         match self.queue.front() {
             None => None,
@@ -130,6 +138,10 @@ impl Inner {
                     Some(Ok(vec![]))
                 },
                 Act::ReadPending => Some(Err(io::Error::new(io::ErrorKind::Other, "verif: pending"))),
+                Act::FailStorm(k) => {
+                    self.fail_storm_left = (STORM - 1, k);
+                    Some(Err(io::Error::new(fail_kind(k), "verif: injected transient error")))
+                },
                 Act::ReadStorm => {
                     self.storm_left.0 = STORM - 1;
                     Some(Err(io::Error::new(io::ErrorKind::Other, "verif: pending")))
@@ -418,7 +430,7 @@ fn run_blocking(inst: &Instance, hist: &[Act], inner: Arc<Mutex<Inner>>) -> RunR
             }
             // a connection that keeps returning results without asking the transport again has
             // produced more results than any history can justify: stop and let the oracle judge
-            if out.results.len() > inst.frames.len() + hist.len() + 2 {
+            if out.results.len() > inst.frames.len() + hist.len() + 2 + STORM as usize * hist.iter().filter(|a| matches!(a, Act::FailStorm(_))).count() {
                 break;
             }
         },
@@ -561,7 +573,7 @@ fn run_tokio(inst: &Instance, hist: &[Act], inner: Arc<Mutex<Inner>>) -> RunResu
                     out.finished = true;
                     break 'calls;
                 }
-                if out.results.len() > inst.frames.len() + writes.len() + hist.len() + 2 {
+                if out.results.len() > inst.frames.len() + writes.len() + hist.len() + 2 + STORM as usize * hist.iter().filter(|a| matches!(a, Act::FailStorm(_))).count() {
                     break 'calls;
                 }
             },
